@@ -135,6 +135,13 @@ class Client:
     def loop_exhausted(self, st: ast.For, state) -> Iterable[Any]:
         return [state]
 
+    def unroll_items(self, st: ast.For, state) -> Optional[List[Any]]:
+        """the items of a for loop over a small constant sequence (then the loop is unrolled), else None"""
+        return None
+
+    def bind_item(self, st: ast.For, state, item) -> Iterable[Any]:
+        return [state]
+
     def loop_enter(self, st, state) -> Iterable[Any]:
         return [state]
 
@@ -307,6 +314,10 @@ class Flow:
                 out.fall |= left
             return out
         if isinstance(st, ast.For):
+            # a loop over a small constant sequence is unrolled: every pass is analysed with its own item
+            unrolled = self._unrolled_for(st, states)
+            if unrolled is not None:
+                return unrolled
             pre: Set[Any] = set()
             for s in states:
                 for ex in c.raises(st.iter, s):
@@ -413,6 +424,39 @@ class Flow:
             return self._simple(st, states, c.stmt)
         raise AnalysisError('statement kind %s at line %d is not modelled by the flow engine'
                             % (type(st).__name__, getattr(st, 'lineno', 0)))
+
+    def _unrolled_for(self, st: ast.For, states: Set[Any]) -> Optional[Outcomes]:
+        c = self.c
+        plans = []
+        for s in states:
+            items = c.unroll_items(st, s)
+            if items is None:
+                return None
+            plans.append((s, items))
+        out = Outcomes()
+        for s, items in plans:
+            for ex in c.raises(st.iter, s):
+                out.exc.add((s, ex))
+            cur: Set[Any] = set(c.expr(st.iter, s))
+            exhausted: Set[Any] = set()
+            for item in items:
+                if not cur:
+                    break
+                body_in: Set[Any] = set()
+                for s1 in cur:
+                    body_in |= set(c.bind_item(st, s1, item))
+                o = self._block(st.body, body_in)
+                out.ret |= o.ret
+                out.exc |= o.exc
+                out.fall |= o.brk          # break: leaves the loop without running ``else``
+                cur = o.fall | o.cont
+            exhausted = cur
+            if st.orelse:
+                o = self._block(st.orelse, exhausted)
+                out.absorb(o, fall=True)
+            else:
+                out.fall |= exhausted
+        return out
 
     def _try(self, st: ast.Try, states: Set[Any]) -> Outcomes:
         c = self.c
